@@ -88,7 +88,7 @@ def atom_text(i, kind, base=1):
     if kind == "pkg":
         return f"[{k}P]"
     if kind == "pkgrep":
-        return f"[{k}P{i}..{k}]"
+        return f"[{k}P{min(i, k)}..{max(i, k, 1)}]"  # a <= b, b >= 1 (a > b is outside the domain)
     if kind == "time":
         return f"[UB{(i % 3) + 1}]"
     raise ValueError(kind)
